@@ -1,6 +1,8 @@
 package fsm
 
 import (
+	"bytes"
+	"fmt"
 	"github.com/canopy-network/canopy/lib"
 	"github.com/canopy-network/canopy/lib/crypto"
 	"google.golang.org/protobuf/types/known/anypb"
@@ -122,6 +124,15 @@ func (s *StateMachine) CheckTx(transaction []byte, txHash string, batchVerifier 
 	// perform basic validations against the tx object
 	if err = tx.CheckBasic(); err != nil {
 		return
+	}
+	// only the canonical encoding is accepted: a transaction is identified by the hash of its raw bytes while the
+	// signature covers the re-encoded content, so any other encoding of the same content would be a replayable alias
+	canonical, err := lib.Marshal(tx)
+	if err != nil {
+		return
+	}
+	if !bytes.Equal(canonical, transaction) {
+		return nil, lib.ErrUnmarshal(fmt.Errorf("non-canonical transaction encoding"))
 	}
 	if s.Metrics != nil {
 		s.Metrics.CheckTxDecodeTime.Observe(time.Since(decodeStartTime).Seconds())
